@@ -158,10 +158,14 @@ func counters(reg *prometheus.Registry) map[string]float64 {
 	return out
 }
 
+var sharedReg = prometheus.NewRegistry()
+var sharedPM = metrics.NewPrometheusMetricsProviderForRegisterer(sharedReg)
+
 // runOne processes (tok, msg) on the real processor.
 func runOne(tok, msg string, mode runMode) observation {
-	reg := prometheus.NewRegistry()
-	pm := metrics.NewPrometheusMetricsProviderForRegisterer(reg)
+	// one long-lived registry and provider for the whole run, as in the daemon: counters are
+	// read before and after each line
+	reg, pm := sharedReg, sharedPM
 	seq := 0
 	enc := &encRec{fail: !mode.WriteOK, seq: &seq}
 	logins := make(chan common.RemoteUserLogin) // unbuffered, as in cmd/namedpipe.go
